@@ -122,11 +122,16 @@ class MetadataHarness(Harness):
             if c["own_phase"]:
                 lines.append("pkg_setup() { :; }\n")
             open(os.path.join(repo, "cat/pkg/pkg-1.ebuild"), "w").write("".join(lines))
+            # a package of an older EAPI goes through the same daemon first
+            os.makedirs(os.path.join(repo, "cat/old"))
+            open(os.path.join(repo, "cat/old/old-1.ebuild"), "w").write('EAPI=5\nSLOT="0"\nDESCRIPTION="older"\nDEPEND="dev/older"\n')
             tree = repository.UnconfiguredTree(repo, repo_config=repo_objs.RepoConfig(repo))
-            pkgs = list(tree)
-            if len(pkgs) != 1:
-                return {"problems": [f"the repository lists {len(pkgs)} packages"], "eapi": eapi, "shape": shape, "place": place}
-            p = pkgs[0]
+            pkgs = {x.cpvstr: x for x in tree}
+            if sorted(pkgs) != ["cat/old-1", "cat/pkg-1"]:
+                return {"problems": [f"the repository lists {sorted(pkgs)}"], "eapi": eapi, "shape": shape, "place": place}
+            older = pkgs["cat/old-1"]
+            older_ok = str(older.depend) == "dev/older" and older.description == "older"
+            p = pkgs["cat/pkg-1"]
             toks = lambda x: sorted(set(str(x).split()))  # token sets: PMS leaves repetition open
             got = {
                 "IUSE": sorted(p.iuse), "REQUIRED_USE": toks(p.required_use), "DEPEND": toks(p.depend), "RDEPEND": toks(p.rdepend), "PDEPEND": toks(p.pdepend), "BDEPEND": toks(p.bdepend), "IDEPEND": toks(p.idepend),
@@ -155,6 +160,8 @@ class MetadataHarness(Harness):
         want.update({"SLOT": "0", "KEYWORDS": ["~amd64"], "HOMEPAGE": ["https://example.org/own"], "INHERITED": sorted({n for n, _, _ in ev}),
                      "DEFINED_PHASES": sorted((["setup"] if c["own_phase"] else []) + (["compile"] if c["export"] and "a" in ecl else []))})
         problems = [f"{k}: {got[k]!r} instead of {want[k]!r}" for k in want if got[k] != want[k]]
+        if not older_ok:
+            problems.append("the EAPI 5 neighbour package lost its metadata")
         return {"eapi": eapi, "shape": shape, "place": place, "own_phase": c["own_phase"], "export": c["export"], "problems": problems}
 
     def prop(self, inp, obs):
